@@ -1,8 +1,129 @@
-(* C20 — operator lifecycle.  Only statements here; proofs in Proofs/Lifecycle.v. *)
+(* C20 — operator lifecycle: startup first, fail-fast, cleanup last, bounded exit.
+   Only statements here; proofs in Proofs/Lifecycle.v; the model is Model/Lifecycle.v.
+   Every theorem quantifies over ALL label traces accepted by the model (all schedules, all fault positions,
+   all stop triggers at all moments, any number of watchers / workers / daemons). *)
 From Coq Require Import List Bool Arith.
 From KV Require Import Model.Lifecycle Proofs.Lifecycle.
 Import ListNotations.
 
-Theorem C20_init_not_started : started init = false.
-Proof. exact init_not_started. Qed.
-Print Assumptions C20_init_not_started.
+(* No API request by any task before the startup activity succeeded and the flag was set ... *)
+Theorem C20_no_api_before_startup : forall pre t post s,
+  run init (pre ++ Api t :: post) = Some s -> exists p1 p2, pre = p1 ++ Flag :: p2 /\ In StartupOk p1.
+Proof. exact no_api_before_startup. Qed.
+Print Assumptions C20_no_api_before_startup.
+
+(* ... nor is any watcher / keep-alive / worker / daemon created before that. *)
+Theorem C20_no_child_before_startup : forall pre t b post s,
+  run init (pre ++ Spawn t b :: post) = Some s -> exists p1 p2, pre = p1 ++ Flag :: p2 /\ In StartupOk p1.
+Proof. exact no_child_before_startup. Qed.
+Print Assumptions C20_no_child_before_startup.
+
+(* A failed startup: the flags are never raised and there is no API request anywhere in the run. *)
+Theorem C20_failed_startup_no_api : forall tr s, run init tr = Some s -> In StartupFail tr ->
+  started s = false /\ ready s = false /\ forall t, ~ In (Api t) tr.
+Proof. exact failed_startup_no_api. Qed.
+Print Assumptions C20_failed_startup_no_api.
+
+(* ... and such a run exists and returns the startup failure (non-vacuity + "Return carries the failure"). *)
+Example C20_failed_startup_returns_failure : returned_with tr_failed_startup (RErr EStartup) = true.
+Proof. exact failed_startup_accepted. Qed.
+Print Assumptions C20_failed_startup_returns_failure.
+
+(* The ready flag is raised only by Flag, which follows StartupOk. *)
+Theorem C20_ready_after_startup : forall tr s, run init tr = Some s -> ready s = true ->
+  started s = true /\ exists pre post, tr = pre ++ Flag :: post /\ In StartupOk pre.
+Proof. exact ready_after_startup. Qed.
+Print Assumptions C20_ready_after_startup.
+
+(* The property's full statement "when ANY essential task fails the whole operator shuts down" is false of the
+   faithful model: after a watcher failed, no internal step is enabled, nothing has returned, every root runs. (F10) *)
+Theorem C20_any_failure_stops_all_refuted :
+  exists tr t s, run init tr = Some s /\ In (Fail t) tr /\
+    quiescent s = true /\ returned s = false /\ all_roots_running s = true /\ stopflag s = false.
+Proof. exact any_failure_stops_all_refuted. Qed.
+Print Assumptions C20_any_failure_stops_all_refuted.
+
+Example C20_failed_worker_lingers_too : lingers tr_f10_worker = true.
+Proof. exact f10_worker_lingers. Qed.
+Print Assumptions C20_failed_worker_lingers_too.
+
+(* Partial: for ROOT tasks.  Once a root task is done run_tasks' reaction (cancel all pending roots) is enabled, and a
+   return other than by double cancellation happens only when every root task is done. *)
+Theorem C20_root_failure_stops_all : forall tr s, run init tr = Some s ->
+  (forall x, mn s = MWait -> is_done (ph s (TRoot x)) = true -> act s <> AFlag ->
+     exists s', step s MainStop = Some s' /\ mn s' = MStopRoots) /\
+  (forall r, mn s = MReturned r -> r <> RCancelled -> forall x, is_done (ph s (TRoot x)) = true).
+Proof. exact root_failure_stops_all. Qed.
+Print Assumptions C20_root_failure_stops_all.
+
+Example C20_root_failure_run : returned_with tr_root_failure (RErr (EOf (TRoot RResObs))) = true.
+Proof. exact root_failure_accepted. Qed.
+Print Assumptions C20_root_failure_run.
+
+(* What kopf.operator() raises: an error one of the root (or hung) tasks ended with; nothing if none did. *)
+Theorem C20_returns_and_reraises : forall s r s', step s (Return r) = Some s' ->
+  match r with
+  | ROk => forall t e, In t (root_tasks ++ hung s) -> ph s t <> PDone (OErr e)
+  | RErr e => exists t, In t (root_tasks ++ hung s) /\ ph s t = PDone (OErr e)
+  | RCancelled => mn s = MCStopHung
+  end.
+Proof. exact returns_and_reraises. Qed.
+Print Assumptions C20_returns_and_reraises.
+
+(* Cleanup starts only when every other root task and the core task are done; they stay done, make no API request and
+   create no task afterwards. *)
+Theorem C20_cleanup_last : forall pre post s, run init (pre ++ CleanupBegin :: post) = Some s ->
+  exists s0, run init pre = Some s0 /\
+    all_done (ph s0) other_roots = true /\ is_done (ph s0 TAuth) = true /\
+    (forall t, In t (TAuth :: other_roots) -> ph s t = ph s0 t) /\
+    (forall t, In t (TAuth :: other_roots) -> ~ In (Api t) post /\ forall c, ~ In (Spawn c t) post).
+Proof. exact cleanup_last. Qed.
+Print Assumptions C20_cleanup_last.
+
+(* "daemons are stopped before cleanup" is false of the faithful model: a daemon spawned after the killer's only
+   sweep is running, never asked, when CleanupBegin happens (F2001) ... *)
+Theorem C20_daemons_stopped_before_cleanup_refuted : daemon_alive_unasked_at_cleanup tr_f2001 0 = true.
+Proof. exact daemons_stopped_before_cleanup_refuted. Qed.
+Print Assumptions C20_daemons_stopped_before_cleanup_refuted.
+
+(* ... partial: the daemon killer (a root task, hence done before cleanup by C20_cleanup_last) ends, other than by its
+   own failure (F2002), only after its sweep and with every daemon it asked done or abandoned. *)
+Theorem C20_daemons_stopped_before_cleanup_partial : forall s o s', step s (Finish (TRoot RKiller) o) = Some s' ->
+  ph s (TRoot RKiller) = PEnding o -> (forall e, o <> OErr e) ->
+  swept s = true /\ forall d, In d (asked s) -> is_done (ph s (TDaemon d)) = true \/ In d (abandoned s).
+Proof. exact killer_finish_partial. Qed.
+Print Assumptions C20_daemons_stopped_before_cleanup_partial.
+
+(* Peering: a keep-alive ends only after its final touch; a cancelled orchestrator (a root, done before cleanup) ends
+   only after every watcher and keep-alive it created. *)
+Theorem C20_peering_withdrawn_partial : forall s k o s', step s (Finish (TKeepalive k) o) = Some s' ->
+  ph s (TKeepalive k) = PEnding o -> In k (withdrawn s).
+Proof. exact keepalive_finish_partial. Qed.
+Print Assumptions C20_peering_withdrawn_partial.
+
+Theorem C20_streams_stopped_partial : forall s s', step s (Finish (TRoot ROrch) OCancelled) = Some s' ->
+  ph s (TRoot ROrch) = PEnding OCancelled ->
+  forall t, In t (spawned s) -> is_ensemble t = true -> is_done (ph s t) = true.
+Proof. exact orch_finish_partial. Qed.
+Print Assumptions C20_streams_stopped_partial.
+
+(* Bounded exit (relative to cancellable handlers): every grace period — the 5 s for hung tasks, exit_timeout per
+   watcher, backoff and timeout per daemon — is spent at most once in any run. *)
+Theorem C20_bounded_exit : forall tr s g, run init tr = Some s -> count_grace g tr <= 1.
+Proof. exact grace_once. Qed.
+Print Assumptions C20_bounded_exit.
+
+(* Outside the single-trigger quantifier: stop flag, then cancellation while the roots are being stopped:
+   run_tasks returns at once, with root tasks still alive. *)
+Example C20_double_trigger_returns_early :
+  match run init tr_double with
+  | Some s => returned s && negb (all_done (ph s) root_tasks)
+  | None => false
+  end = true.
+Proof. exact double_trigger_returns_early. Qed.
+Print Assumptions C20_double_trigger_returns_early.
+
+(* Non-vacuity: a complete graceful run with a watcher, a worker and a daemon is accepted and returns normally. *)
+Example C20_happy_run : returned_with tr_happy ROk = true.
+Proof. exact happy_accepted. Qed.
+Print Assumptions C20_happy_run.
